@@ -79,23 +79,23 @@ inductive Answer
   | escaped (what : String)   -- the exception is not caught by the method
 deriving DecidableEq, Repr
 
-/-- `cls`: the class (as far as the handlers distinguish: the caught class it is an instance of, or its own name) of
-    the exception raised inside the Supervisor method, if one is -/
-def answerOf (caught : List (String × Int)) (falseCode : Int) (cls : String) : Option Res → Answer
+/-- `mro`: the class of the exception raised inside the Supervisor method (if one is) with its base classes; as in
+    Python, the first handler naming a class the exception is an instance of takes it -/
+def answerOf (caught : List (String × Int)) (falseCode : Int) (mro : List String) : Option Res → Answer
   | some (.ret true) => .ok
   | some (.ret false) => .fault falseCode
   | none => .fault falseCode
   | some (.raised w) =>
-    match caught.lookup cls with
-    | some c => .fault c
+    match caught.find? (fun h => h.1 ∈ mro) with
+    | some h => .fault h.2
     | none => .escaped w
 
 /-- `rpcinterface.addProcessGroup(g)` for a configured name -/
-def rpcAdd (gs : List String) (g : String) (fault : Option String) (cls : String) : G × Answer :=
+def rpcAdd (gs : List String) (g : String) (fault : Option String) (cls : List String) : G × Answer :=
   (addGroup gs g fault, answerOf rpcAddCaught rpcAddFalse cls (addGroup gs g fault).res)
 
 /-- `rpcinterface.removeProcessGroup(g)` for a name in the table -/
-def rpcRemove (gs : List String) (g : String) (unstopped : Bool) (fault : Option String) (cls : String) : G × Answer :=
+def rpcRemove (gs : List String) (g : String) (unstopped : Bool) (fault : Option String) (cls : List String) : G × Answer :=
   (removeGroup gs g unstopped fault, answerOf rpcRemoveCaught rpcRemoveFalse cls (removeGroup gs g unstopped fault).res)
 
 inductive Op
@@ -233,7 +233,7 @@ def showAnswer : Answer → String
   | .escaped w => "raised:" ++ w
 
 /-- `case groups`: ops `add <g> <fault|->`, `remove <g> <unstopped 0|1> <fault|->` (the Supervisor methods) and
-    `rpcadd <g> <fault|-> <exception class|->`, `rpcremove <g> <0|1> <fault|-> <exception class|->` (the RPC methods),
+    `rpcadd <g> <fault|-> <Class/Base/...|->`, `rpcremove <g> <0|1> <fault|-> <Class/Base/...|->` (the RPC methods; the exception's class with its bases),
     from an empty table -/
 def runGroups (_cfg : List String) (ops : List String) : List String :=
   let rec go (gs : List String) : List String → List String
@@ -243,9 +243,9 @@ def runGroups (_cfg : List String) (ops : List String) : List String :=
         | ["add", g, f] => some (addGroup gs g (faultOf f), showRes (addGroup gs g (faultOf f)).res)
         | ["remove", g, "0", f] => some (removeGroup gs g false (faultOf f), showRes (removeGroup gs g false (faultOf f)).res)
         | ["remove", g, "1", f] => some (removeGroup gs g true (faultOf f), showRes (removeGroup gs g true (faultOf f)).res)
-        | ["rpcadd", g, f, c] => some ((rpcAdd gs g (faultOf f) c).1, showAnswer (rpcAdd gs g (faultOf f) c).2)
-        | ["rpcremove", g, "0", f, c] => some ((rpcRemove gs g false (faultOf f) c).1, showAnswer (rpcRemove gs g false (faultOf f) c).2)
-        | ["rpcremove", g, "1", f, c] => some ((rpcRemove gs g true (faultOf f) c).1, showAnswer (rpcRemove gs g true (faultOf f) c).2)
+        | ["rpcadd", g, f, c] => some ((rpcAdd gs g (faultOf f) (c.splitOn "/")).1, showAnswer (rpcAdd gs g (faultOf f) (c.splitOn "/")).2)
+        | ["rpcremove", g, "0", f, c] => some ((rpcRemove gs g false (faultOf f) (c.splitOn "/")).1, showAnswer (rpcRemove gs g false (faultOf f) (c.splitOn "/")).2)
+        | ["rpcremove", g, "1", f, c] => some ((rpcRemove gs g true (faultOf f) (c.splitOn "/")).1, showAnswer (rpcRemove gs g true (faultOf f) (c.splitOn "/")).2)
         | _ => none
       match x with
       | none => "bad-op" :: go gs r
